@@ -64,8 +64,24 @@ def main():
                 failures.append({"what": "intpow(n) != intpow(n - 1) * x", "input": {"p": p, "x": [x.a, x.b], "n": big}})
 
     # --- protocol runs ----------------------------------------------------------------------------------------------
+    from ipv8.attestation.wallet.primitives.attestation import sha256_4_as_int, sha256_as_int, sha512_as_int
+    hash_of = {"sha256_4": (sha256_4_as_int, 32), "sha256": (sha256_as_int, 256), "sha512": (sha512_as_int, 512)}
+
+    def value_with_leading_zero_bytes(fmt_name, zero_bytes):
+        """an attribute value whose hash starts with zero bytes: the bit expansion must still cover the whole bit space"""
+        fn, bits = hash_of[FORMATS[fmt_name]["hash"]]
+        for k in range(400000):
+            cand = b"zero-lead-%d-%d" % (seed, k)
+            if fn(cand) < 2 ** (bits - 8 * zero_bytes):
+                return cand
+        return None
+
     for fmt_name in FORMATS:
-        for _ in range(runs if (thorough or fmt_name == "id_metadata") else 1):
+        forced = [value_with_leading_zero_bytes(fmt_name, 1)]
+        if fmt_name == "id_metadata":
+            forced.append(value_with_leading_zero_bytes(fmt_name, 2))
+        plan = [None] * (runs if (thorough or fmt_name == "id_metadata") else 1) + [v for v in forced if v is not None]
+        for forced_value in plan:
             cases += 1
             alg = BonehExactAlgorithm(fmt_name, FORMATS)
             sk = alg.generate_secret_key()
@@ -79,7 +95,7 @@ def main():
             for msg in (0, 1, 2, 3):
                 if decode(sk, [0, 1, 2, 3], encode(pk, msg)) != msg:
                     failures.append({"what": "decode(encode(m)) != m", "input": {"m": msg, "sk": sk.serialize().hex()}})
-            value = bytes(rnd.getrandbits(8) for _ in range(rnd.choice([0, 1, 20, 64])))
+            value = forced_value if forced_value is not None else bytes(rnd.getrandbits(8) for _ in range(rnd.choice([0, 1, 20, 64])))
             blob = alg.attest(pk, value)
             att = BonehAttestation.unserialize(blob, fmt_name)
             if att.serialize() != blob:
@@ -130,6 +146,17 @@ def main():
                     failures.append({"what": f"range proof for {value} checked against {fmts[name]['min']}..{fmts[name]['max']} "
                                              f"scored {score}, expected {want}", "input": {"order": list(order), "value": value,
                                                                                             "sk": sk.serialize().hex()}})
+        # a proof BUILT for a window of the same width that was moved to contain an outside value is never accepted
+        shift = rnd.randint(1, lo)
+        outside = lo - shift                                  # below the verifier's minimum
+        fmts["shifted"] = {"algorithm": "pengbaorange", "key_size": 32, "min": lo - shift, "max": hi - shift}
+        alg_shifted = PengBaoRangeAlgorithm("shifted", fmts)
+        cheat_att = PengBaoAttestation.unserialize_private(sk, alg_shifted.attest(pk, bytes([outside])), "in")
+        score = range_round(alg_in, sk, cheat_att, PengBaoAttestation.unserialize(cheat_att.serialize(), "in"))
+        cases += 1
+        if score != 0.0:
+            failures.append({"what": f"range proof built for {outside} in {lo - shift}..{hi - shift} was accepted (score {score}) "
+                                     f"by a verifier of {lo}..{hi}", "input": {"value": outside, "sk": sk.serialize().hex()}})
     print(json.dumps({"ok": not failures, "cases": cases, "failures": failures[:10]}, default=str))
     return 0 if not failures else 1
 
